@@ -8,4 +8,5 @@ CONSTANTS
   RejectTrailing = FALSE
   ValidateFiles = TRUE
   CompressionTransparent = TRUE
+  ZeroCRCCompared = TRUE
 INVARIANTS RestoreAcceptedIsSource
